@@ -114,6 +114,7 @@ class Enc:
         self.fix = []          # forward pointers to patch: (position, suffix)
         self.pc = p_compress   # percent
         self.pf = p_forward
+        self.name_starts = []  # offsets at which a name was written (for the name-targeted mutations)
         self.n_ptr = 0
         self.n_fwd = 0
         self.max_chain = 0
@@ -126,6 +127,7 @@ class Enc:
 
     def name(self, labels, compress=True):
         labels = [bytes(l) for l in labels]
+        self.name_starts.append(len(self.b))
         starts = []
         i = 0
         n = len(labels)
@@ -354,6 +356,7 @@ def build_message(rng, p_compress=None, p_forward=None, nq=None, counts=None, ki
         return None
     msg["wire"] = wire
     msg["stats"] = {"pointers": enc.n_ptr, "forward": enc.n_fwd, "max_chain": enc.max_chain}
+    msg["name_starts"] = enc.name_starts
     return msg
 
 
@@ -414,10 +417,39 @@ def gen_name_cases(rng, n):
     return cases
 
 
-def mutate(rng, wire):
+def mutate(rng, wire, name_starts=()):
     w = bytearray(wire)
     k = rng.below(14)
     kind = "flip"
+    ns = [o for o in name_starts if o + 2 <= len(w)]
+    if ns and rng.chance(1, 4):
+        # aim at a place the decoder will certainly read as a name
+        o = rng.choice(ns)
+        j = rng.below(6)
+        if j == 0:
+            kind = "name-self-pointer"
+            w[o:o + 2] = bytes([0xC0 | (o >> 8) & 0x3F, o & 255])
+        elif j == 1:
+            kind = "name-pointer-cycle"
+            o2 = rng.choice(ns)
+            w[o:o + 2] = bytes([0xC0 | (o2 >> 8) & 0x3F, o2 & 255])
+            w[o2:o2 + 2] = bytes([0xC0 | (o >> 8) & 0x3F, o & 255])
+        elif j == 2:
+            kind = "name-pointer-out-of-range"
+            t = rng.choice([len(w), len(w) + 1, 0x3FFF, len(w) - 1])
+            w[o:o + 2] = bytes([0xC0 | (t >> 8) & 0x3F, t & 255])
+        elif j == 3:
+            kind = "name-grow"          # prepend labels: total length beyond 253, or a label of 64
+            extra = b"".join(bytes([63]) + bytes([rng.choice(b"pqr")]) * 63 for _ in range(rng.choice([1, 3, 4])))
+            w[o:o] = extra if rng.chance(3, 4) else bytes([64]) + b"z" * 64
+        elif j == 4:
+            kind = "name-pointer-forward"
+            o2 = rng.choice(ns)
+            w[o:o + 2] = bytes([0xC0 | (o2 >> 8) & 0x3F, o2 & 255])
+        else:
+            kind = "name-cut"
+            del w[o + 1:]
+        return bytes(w), kind
     if k < 3 and w:
         for _ in range(rng.range(1, 3)):
             w[rng.below(len(w))] ^= 1 << rng.below(8)
@@ -464,7 +496,7 @@ def gen_mutated_cases(rng, n):
         w = msg["wire"]
         kinds = []
         for _ in range(rng.choice([1, 1, 2, 3])):
-            w, k = mutate(rng, w)
+            w, k = mutate(rng, w, msg["name_starts"])
             kinds.append(k)
         cases.append({"cat": "mutated", "ops": ["parse " + hexs(w)], "mut": kinds})
         if i % 4 == 0:
@@ -851,7 +883,9 @@ def monitor_cache(c, impl):
 def monitor_msg(c, impl):
     bad = []
     for op, l in zip(c["ops"], impl):
-        if l.startswith("throw") or l.startswith("crash:"):
+        if l == "crash:timeout":
+            bad.append("N4: decoding does not terminate promptly (watchdog): %s" % op[:120])
+        elif l.startswith("throw") or l.startswith("crash:"):
             bad.append("N3: input makes the decoder crash / throw a foreign exception: %s -> %s" % (op[:90], l[:80]))
         elif not (l.startswith("ok") or l.startswith("err ") or l == "bad-op" or all(ch in "0123456789abcdef-" for ch in l)):
             bad.append("N3: unexpected outcome: %s -> %s" % (op[:90], l[:80]))
@@ -900,12 +934,39 @@ def run(ctx: Ctx):
         corpus = load_corpus()
         cases = list(corpus)
         cases += gen_gadget_cases(rng.fork("gadget"))
-        cases += gen_valid_cases(rng.fork("valid"), 1500 * scale)
-        cases += gen_name_cases(rng.fork("name"), 300 * scale)
-        cases += gen_mutated_cases(rng.fork("mut"), 2500 * scale)
-        cases += gen_query_cases(rng.fork("query"), 300 * scale)
-        cases += gen_cache_cases(rng.fork("cache"), 250 * scale)
-        res = ctx.lockstep("dns", hb, cases, timeout=400)
+        cases += gen_valid_cases(rng.fork("valid"), 4000 * scale)
+        cases += gen_name_cases(rng.fork("name"), 800 * scale)
+        cases += gen_mutated_cases(rng.fork("mut"), 6000 * scale)
+        cases += gen_query_cases(rng.fork("query"), 600 * scale)
+        cases += gen_cache_cases(rng.fork("cache"), 1000 * scale)
+        # Phase 1: corpus, gadgets, chains (small, and the ones that would hang a decoder without loop detection) under a short
+        # watchdog; later phases only run while nothing has timed out (a non-terminating decoder would otherwise cost the
+        # watchdog time once per restart).
+        first = [c for c in cases if c["cat"] in ("corpus", "gadget", "gadget-rdata", "chain", "boundary") or c.get("file")]
+        rest = [c for c in cases if not (c["cat"] in ("corpus", "gadget", "gadget-rdata", "chain", "boundary") or c.get("file"))]
+        probe = [c for c in first if c.get("tag") in ("self-pointer qname", "two-pointer cycle")]
+        first = [c for c in first if c not in probe]
+        res = []
+        hung = False
+        for c in probe:                      # a decoder without loop detection never returns from these two: find out in 15 s each
+            if not hung:
+                part = ctx.lockstep("dns", hb, [c], timeout=15)
+                hung = any(l == "crash:timeout" for _, impl, _ in part for l in impl)
+                res += part
+        if not hung:
+            part = ctx.lockstep("dns", hb, first, timeout=60)
+            hung = any(l == "crash:timeout" for _, impl, _ in part for l in impl)
+            res += part
+        else:
+            ctx.notes.append("corpus and gadget cases not run: the decoder does not terminate on a pointer loop")
+        chunk = 4000
+        for i in range(0, len(rest), chunk):
+            if hung:
+                ctx.notes.append("%d generated cases not run: the decoder did not terminate on an earlier input" % (len(rest) - i))
+                break
+            part = ctx.lockstep("dns", hb, rest[i:i + chunk], timeout=90 if quick else 300)
+            hung = any(l == "crash:timeout" for _, impl, _ in part for l in impl)
+            res += part
         n_mismatch = 0
         skipped_after_crash_cap = 0
         ptr_total = fwd_total = 0
